@@ -14,7 +14,7 @@
 From GoImap.Base Require Import Bytes.
 From Coq Require Import Sorting.Permutation.
 From GoImap.Model Require Import NumSet Tracker MemView.
-From GoImap.Proofs Require Import TrackerSpec MemViewSpec MemViewProofs.
+From GoImap.Proofs Require Import TrackerSpec MemViewSpec MemViewProofs MemViewReadOnly.
 Open Scope N_scope.
 
 (* The wire observer accepts everything every connection ever receives (it rejects a sequence
@@ -97,13 +97,76 @@ Theorem C08_log_is_run : forall h st st' log, run_log st h = (st', log) ->
 Proof. exact run_log_erase. Qed.
 Print Assumptions C08_log_is_run.
 
+(* ---- the read-only view (EXAMINE) ----------------------------------------------------------
+   A connection carries the read-only bit of its view ([ro_of], the backend's
+   MailboxView.readOnly); [contents st] is, for every mailbox, its messages (UID, \Deleted, in
+   order) and its uidNext, i.e. everything but the tracker. *)
+
+(* a SELECT/EXAMINE answered OK leaves its own form in the bit *)
+Theorem C08_select_records_readonly : forall st c cn m ro st' evs, get (s_conns st) c = Some cn ->
+  handle_cmd st c (CSelect m ro) = (st', evs) -> In (EvDone StOK DNone) evs ->
+  ro_of st' c = ro /\ exists cn', get (s_conns st') c = Some cn' /\ c_sel cn' = Some m.
+Proof. exact select_records_ro. Qed.
+Print Assumptions C08_select_records_readonly.
+
+(* a read-only view never changes a mailbox: whatever command other than APPEND and COPY (which
+   add messages to the mailbox they name, whatever is selected) a connection with a read-only
+   view issues, in any state, no mailbox's messages, flags or uidNext change -- the step includes
+   what the idling connections are sent afterwards.  [C08_readonly_no_change_log]: the same in the
+   vocabulary of [run_log]. *)
+Theorem C08_readonly_no_change : forall st c cm st' l, ro_of st c = true -> adds cm = false ->
+  sys_step st c cm = (st', l) -> contents st' = contents st.
+Proof. exact readonly_no_change. Qed.
+Print Assumptions C08_readonly_no_change.
+
+Theorem C08_readonly_no_change_log : forall st c cm st' l, ro_of st c = true -> adds cm = false ->
+  step_log st c cm = (st', l) -> contents st' = contents st.
+Proof. exact readonly_no_change_log. Qed.
+Print Assumptions C08_readonly_no_change_log.
+
+(* and what it answers: STORE, UID EXPUNGE, MOVE: NO, the whole state (trackers included) as it
+   was; CLOSE: only leaves the mailbox; EXPUNGE: a NOOP; FETCH: as if every section were PEEK *)
+Theorem C08_readonly_refuses : forall st c m mb, sel_of st c = Some (m, mb) -> ro_of st c = true ->
+  (forall uidk s o silent, handle_cmd st c (CStore uidk s o silent) = (st, [EvDone StNO DNone])) /\
+  (forall s, handle_cmd st c (CUidExpunge s) = (st, [EvDone StNO DNone])) /\
+  (forall uidk s d, handle_cmd st c (CMove uidk s d) = (st, [EvDone StNO DNone])) /\
+  handle_cmd st c CClose = (sys_unselect st c, [EvDone StOK DNone]) /\
+  handle_cmd st c CExpunge = handle_cmd st c CNoop /\
+  (forall uidk s wflags seen, handle_cmd st c (CFetch uidk s wflags seen) =
+                              handle_cmd st c (CFetch uidk s wflags false)).
+Proof. exact readonly_refuses. Qed.
+Print Assumptions C08_readonly_refuses.
+
+(* non-vacuity of the read-only clauses: session 1 EXAMINEs a mailbox of two messages (one
+   \Deleted) that session 0 has SELECTed; its STORE / UID EXPUNGE / MOVE get NO, its FETCH of a
+   non-PEEK body, EXPUNGE and CLOSE go through, and the mailbox is as before; the same commands
+   after a SELECT do change it. *)
+Example C08_readonly_nonvacuous :
+  let pre := [(0, CAppend 0 true); (0, CAppend 0 false); (0, CSelect 0 false)] in
+  let cmds := [(1, CStore false [(1, 0)] SDel false); (1, CFetch false [(1, 0)] true true);
+               (1, CUidExpunge [(1, 0)]); (1, CMove false [(1, 1)] 1); (1, CExpunge); (1, CClose);
+               (0, CNoop)] in
+  let '(st_ro, log_ro) := run_log (sys_init 2 2) (pre ++ (1, CSelect 0 true) :: cmds) in
+  let '(st_rw, log_rw) := run_log (sys_init 2 2) (pre ++ (1, CSelect 0 false) :: cmds) in
+  map snd (items_of 1 log_ro) =
+    [EvExists 2 [1; 2]; EvUidNext 3; EvDone StOK DNone;
+     EvDone StNO DNone;
+     EvFetch 1 1 (Some true); EvFetch 2 2 (Some false); EvDone StOK DNone;
+     EvDone StNO DNone; EvDone StNO DNone; EvDone StOK DNone; EvDone StOK DNone] /\
+  map snd (items_of 0 log_ro) =
+    [EvDone StOK (DAppendUid 1); EvDone StOK (DAppendUid 2);
+     EvExists 2 [1; 2]; EvUidNext 3; EvDone StOK DNone; EvDone StOK DNone] /\
+  contents st_ro = [([mkMsg 1 true; mkMsg 2 false], 3); ([], 1)] /\
+  contents st_rw = [([], 3); ([], 1)].
+Proof. vm_compute. repeat split; reflexivity. Qed.
+
 (* non-vacuity: two sessions on one mailbox of three messages; session 1 expunges message 2 and
    appends while session 0's view is stale; session 0 then fetches (no EXPUNGE allowed), moves
    message 1 away, and NOOPs.  The streams are the expected ones, and the wire observer does
    discriminate: it rejects the responses the unrepaired server used to send. *)
 Example C08_nonvacuous :
   let h := [(0, CAppend 0 false); (0, CAppend 0 true); (0, CAppend 0 false);
-            (0, CSelect 0); (1, CSelect 0);
+            (0, CSelect 0 false); (1, CSelect 0 false);
             (1, CExpunge); (1, CAppend 0 false);
             (0, CFetch false [(1, 0)] false false);
             (0, CMove false [(1, 1)] 1);
@@ -117,14 +180,14 @@ Example C08_nonvacuous :
      EvDone StOK DNone] /\
   view_of st 0 = Some [3; 4] /\ view_of st 1 = Some [1; 3; 4] /\
   (* MOVE 3 on three messages used to answer "* 0 EXPUNGE" *)
-  wire_run [(Some (CSelect 0), EvExists 3 []); (Some (CMove false [(3, 3)] 1), EvExpunge 0)] = None /\
+  wire_run [(Some (CSelect 0 false), EvExists 3 []); (Some (CMove false [(3, 3)] 1), EvExpunge 0)] = None /\
   (* MOVE 1 on three messages used to answer "* 2 EXPUNGE", "* 1 EXPUNGE" and then the poll's
      "* 1 EXPUNGE": in range, but the client's list is then empty while UID 2 and 3 are still there *)
-  view_run [(Some (CSelect 0), EvExists 3 [1; 2; 3]); (Some (CMove false [(1, 1)] 1), EvExpunge 2);
+  view_run [(Some (CSelect 0 false), EvExists 3 [1; 2; 3]); (Some (CMove false [(1, 1)] 1), EvExpunge 2);
             (Some (CMove false [(1, 1)] 1), EvExpunge 1); (Some (CMove false [(1, 1)] 1), EvExpunge 1);
             (Some (CFetch true [(1, 0)] false false), EvFetch 1 2 None)] = None /\
   (* "* 0 FETCH" *)
-  wire_run [(Some (CSelect 0), EvExists 1 []); (Some (CFetch true [(1, 0)] true false), EvFetch 0 2 None)] = None /\
+  wire_run [(Some (CSelect 0 false), EvExists 1 []); (Some (CFetch true [(1, 0)] true false), EvFetch 0 2 None)] = None /\
   (* EXPUNGE while answering a FETCH *)
-  wire_run [(Some (CSelect 0), EvExists 3 []); (Some (CFetch false [(1, 0)] false false), EvExpunge 2)] = None.
+  wire_run [(Some (CSelect 0 false), EvExists 3 []); (Some (CFetch false [(1, 0)] false false), EvExpunge 2)] = None.
 Proof. vm_compute. repeat split; reflexivity. Qed.
